@@ -4,6 +4,8 @@ stdin : {"seqs": [ {"items": [item, ...]}, ... ]}
 stdout: {"results": [ per-sequence result ]}
 
 item = ["t", texpr]            evaluate a type expression (subscript the real classes)
+     | ["r", texpr, param]     subscript the already parametrised class texpr again:
+                               param = ["w", n] | ["a", texpr, n] | ["q", dir|null, texpr]
      | ["v", scenario]          build a vector object, take view chains, write/read through them
 
 texpr (JSON) = ["leaf", "bit"|"bool"|"int"] | ["vany", fam] | ["vec", fam, "down"|"up", w] | ["arrany"]
@@ -59,6 +61,20 @@ def build(e):
             return QF[e[1]][inner]
         return QF[e[1]][inner, DIR[e[2]]]
     raise ValueError(e)
+
+
+def build_re(base, param):
+    """subscript an already parametrised class: base[param]"""
+    B = build(base)
+    k = param[0]
+    if k == "w":
+        return B[param[1]]
+    if k == "a":
+        return B[build(param[1]), param[2]]
+    if k == "q":
+        inner = build(param[2])
+        return B[inner] if param[1] is None else B[inner, DIR[param[1]]]
+    raise ValueError(param)
 
 
 def describe(c):
@@ -223,9 +239,9 @@ def run_seq(seq):
     status = []       # ok | rej | err:<type>
     vres = []
     for it in items:
-        if it[0] == "t":
+        if it[0] in ("t", "r"):
             try:
-                c = build(it[1])
+                c = build(it[1]) if it[0] == "t" else build_re(it[1], it[2])
                 classes.append(c)
                 status.append("ok")
             except AssertionError:
